@@ -362,6 +362,25 @@ class LibMap:
             return "%sbegin(%s)" % (f, p)
         if name in ("end", "cend"):
             return "%send(%s)" % (f, p)
+        if name == "sort" and len(args) <= 1:
+            # std::list::sort() / sort(std::greater<T>()) / sort(std::less<T>()): scalar elements only
+            ect = em.tm.seq_insts.get(tag, "struct")
+            if is_scalar(ect):
+                order = "asc"
+                if args:
+                    ft = em.tm.resolve(strip_ref(em.ptype(args[0])))
+                    if ft.kind == "named" and ft.last in ("greater", "less") and (ft.name or "").startswith("std::"):
+                        order = "desc" if ft.last == "greater" else "asc"
+                    else:
+                        return None
+                self.need.add(("seq_sort", tag))
+                return "%ssort_%s(%s)" % (f, order, p)
+            return None
+        if name == "unique" and not args:
+            if is_scalar(em.tm.seq_insts.get(tag, "struct")):
+                self.need.add(("seq_sort", tag))
+                return "%sunique(%s)" % (f, p)
+            return None
         if name == "data":
             return "%sbegin(%s)" % (f, p)
         if name == "erase":
@@ -373,7 +392,8 @@ class LibMap:
         if name == "resize":
             if len(args) == 1:
                 return "%sresize(%s, %s)" % (f, p, em.E(args[0]))
-            return "%sresize_fill(%s, %s, %s)" % (f, p, em.E(args[0]), em.E(args[1]))
+            deep = em.tm.seq_insts.get(tag, "").startswith("struct vf_seq_")  # vector of vectors: each new slot owns a copy
+            return "%sresize_fill%s(%s, %s, %s)" % (f, "_deep" if deep else "", p, em.E(args[0]), em.E(args[1]))
         if name == "assign" and len(args) == 2:
             return "%sassign_fill(%s, %s, %s)" % (f, p, em.E(args[0]), em.E(args[1]))
         if name in ("reserve", "shrink_to_fit"):
@@ -448,6 +468,36 @@ class LibMap:
             if is_scalar(ct):
                 self.minmax.add((name, ct))
                 return "vf_%s_%s(%s, %s)" % (name, ident(ct), em.E(args[0]), em.E(args[1]))
+            if ct.startswith("struct ") and not ct.startswith("struct vf_") and not ct.endswith("*"):
+                # class type ordered by its own operator<=> (a unit or a callee): std::max(a,b) = (a < b) ? b : a and
+                # std::min(a,b) = (b < a) ? b : a, with x < y rewritten by the compiler to (x <=> y) < 0
+                tag = ct[len("struct "):]
+                cmpf = em.fn_cname(tag, "operator<=>", None)
+                em.note_proto(cmpf, "int", ["struct %s*" % tag, "struct %s*" % tag],
+                              "%s::operator<=> (used by std::%s)" % (tag, name))
+                em.callees.setdefault(cmpf, "%s::operator<=>" % tag)
+                em.callflag = True
+                hn = "vf_%s_%s" % (name, tag)
+                test = "%s(a, b) < 0" % cmpf if name == "max" else "%s(b, a) < 0" % cmpf
+                text = "static inline %s* %s(%s* a, %s* b) { return (%s) ? b : a; }" % (ct, hn, ct, ct, test)
+                if text not in em.lifted:
+                    em.lifted.append(text)
+                return "(*%s(%s, %s))" % (hn, em.addr_of(args[0]), em.addr_of(args[1]))
+        if name == "transform" and len(args) in (4, 5) and skip(args[-1]).get("kind") == "LambdaExpr":
+            # std::transform(first1, last1, [first2,] out, <captureless lambda>) over pointer iterators: an index loop
+            # calling the lifted lambda; the loop is loop number k of the calling unit (macro VF_LOOP_<unit>_<k>)
+            cts = [self.mapped(em, a) for a in args[:-1]]
+            if all(c and c.endswith("*") for c in cts):
+                m = em.loop_macro()
+                fn = em.lift_lambda_fn(skip(args[-1]))
+                hn = "vf_transform_" + fn
+                two = len(args) == 5
+                ps = ["%s b1" % cts[0], "%s e1" % cts[1]] + (["%s b2" % cts[2]] if two else []) + ["%s out" % cts[-1]]
+                call = "%s(b1[i], b2[i])" % fn if two else "%s(b1[i])" % fn
+                em.lifted.append("#ifndef %s\n#define %s\n#endif\nstatic inline %s %s(%s)\n{\n  size_t n = (size_t)(e1 - b1);\n"
+                                 "  for (size_t i = 0; i < n; i++)\n    %s\n  { out[i] = %s; }\n  return out + n;\n}\n"
+                                 % (m, m, cts[-1], hn, ", ".join(ps), m, call))
+                return "%s(%s)" % (hn, ", ".join(em.E(a) for a in args[:-1]))
         if name == "clamp" and len(args) == 3:
             ct = em.ctype(n)
             self.minmax.add(("clamp", ct))
@@ -557,6 +607,8 @@ class LibMap:
             return em.E(args[0])
         if ct.startswith("struct vf_seq_"):
             tag = ct[len("struct vf_seq_"):]
+            while args and args[-1].get("kind") == "CXXDefaultArgExpr":
+                args = args[:-1]  # defaulted allocator argument
             if not args:
                 return "vf_seq_%s_make()" % tag
             if len(args) == 1:
@@ -594,6 +646,8 @@ class LibMap:
                 return "((%s){0})" % ct
             if self.mapped(em, args[0]) == ct:
                 return em.E(args[0])
+            if "nullopt_t" in (qt(args[0]) or ""):
+                return "((%s){0})" % ct  # optional(std::nullopt), possibly through a copy of the nullopt_t object
             if skip(args[0]).get("kind") == "DeclRefExpr" and \
                     skip(args[0])["referencedDecl"].get("name") == "nullopt":
                 return "((%s){0})" % ct
@@ -608,6 +662,8 @@ class LibMap:
             if not args:
                 return "%s_make()" % ct[len("struct "):]
             if len(args) == 1 and self.mapped(em, args[0]) == ct:
+                if args[0].get("valueCategory") == "lvalue" and ct.startswith("struct vf_set_"):
+                    return "%s_copy(%s)" % (ct[len("struct "):], em.addr_of(args[0]))  # copy construction: own storage
                 return em.E(args[0])
             return None
         # plain class: copy/move construction = struct copy when declared POD in the config
